@@ -59,6 +59,15 @@ func vestRunSeed(prop string, seed uint64, tier string) *Outcome {
 	tr := &kernel.Trace{Profile: prop, Seed: seed, Spec: *spec}
 	rr := r.Fork(21)
 	src := &genSource{rng: rr, nBlocks: rr.Range(pf.Blocks[0], pf.Blocks[1]), Cadence: w.cadence, MaxTxs: pf.MaxTxs, PTx: 0.85, TxGens: w.txGens(pf.Weights)}
+	if seed%5 == 2 {
+		src.CrashP = 0.15
+	}
+	if seed%5 == 3 {
+		simOverlay(src, spec)
+	}
+	if seed%5 == 4 {
+		src.ExportP = 0.08
+	}
 	vm, mons := vestMonitors(prop)
 	_, o := execTrace(tr, src, mons, false)
 	finishVestOutcome(o, vm)
@@ -130,7 +139,10 @@ func init() {
 			Real:     vestReal, Stub: vestStub, Assumes: assumes, FaultKinds: faultKinds,
 		})
 	}
-	fk := []string{"F-clock (exact lock-end / vesting boundary hits, 1 ns around, long jumps)", "F-order (interleaved valid and rejected messages, both delivery routes)", "F-malformed (boundary amounts: 0, exact remainder, remainder+1, balance+1; duplicate names; unknown types; existing/blocked recipients)"}
+	fk := []string{"F-clock (exact lock-end / vesting boundary hits, 1 ns around, long jumps)", "F-order (interleaved valid and rejected messages, both delivery routes)", "F-malformed (boundary amounts: 0, exact remainder, remainder+1, balance+1; duplicate names; unknown types; existing/blocked recipients)",
+		"F-crash (every fifth run: the node dies before Commit or at the k-th write of the commit batch in ~15% of the blocks, restarts over the surviving disk and re-executes the block; all oracles continue on the recovered node)",
+		"F-simulate + F-rollback (every fifth run: a quarter of the transactions are only handed to the Simulate service, or are a governance execution [parameter update, failing message] that x/gov drops as a whole; nothing of either may stick)",
+		"F-export (every fifth run: after ~8% of the blocks the genesis is exported and a fresh node is initialised from it; the oracles continue, vesting types are judged by what was configured at genesis)"}
 	reg("C05", "one run = a generated world (4-8 clients, 1-4 vesting types, optional genesis pools and genesis vesting accounts) driven for 10-30 blocks with up to 5 vesting messages per block; "+
 		"after every message and every BeginBlock: module balance == sum of pool remainders, pool bounds, legality of every pool change (M-vest), and byte-identical vesting store/balances/accounts after a rejected message. "+
 		"non-trivial = the run has both accepted and rejected messages; distinct = hash of message kinds x routes, probes and outcome", fk, []string{"fees are zero in this profile; rejected signed transactions may still bump the signer's sequence (ante handler)"})
